@@ -150,7 +150,8 @@ def run(ctx: vlib.Ctx, sources: list[str], cases: list[dict]):
         return
     txt = HEADER + "Definition cases : list (list sty * list lcode) :=\n  [" + ";\n   ".join(lines) + "].\n"
     txt += "Eval vm_compute in (bad_idx ok cases).\n"
-    (ok, out), = vlib.coq_eval_many([("c05_k19_emit_0", txt)], timeout=900, jobs=2)
+    from harness.props.c05_typed import eval_robust
+    (ok, out), = eval_robust([("c05_k19_emit_0", txt)], timeout=900, jobs=2)
     idx = vlib.parse_nat_list(out) if ok else None
     if idx is None:
         ctx.correspondence("c05_k19_emit", len(lines), -1, out[-1500:])
@@ -322,7 +323,8 @@ def run_discr(ctx: vlib.Ctx, extra_sources: list[str] | None = None):
         return
     terms = list(cases)
     txt = DISCR_HEADER + "Definition cases : list (list string) :=\n  [" + ";\n   ".join(terms) + "].\nEval vm_compute in (bad_idx okd cases).\n"
-    (ok, out), = vlib.coq_eval_many([(name + "_0", txt)], timeout=900, jobs=2)
+    from harness.props.c05_typed import eval_robust
+    (ok, out), = eval_robust([(name + "_0", txt)], timeout=900, jobs=2)
     idx = vlib.parse_nat_list(out) if ok else None
     if idx is None:
         ctx.correspondence(name, len(srcs), -1, out[-1500:])
